@@ -75,3 +75,22 @@ def run_recorded(case):
         if c["input_index"] == case["input_index"]:
             return c["failure"]
     return None
+
+
+def user_generic_witness():
+    """Known finding C03-user-generic-type-argument: a parameterised user generic takes its annotations from the class it was
+    subscripted from, so a TypeVar field is passed through whatever the type argument says."""
+    import dataclasses
+    import typing
+    import typelib
+    T = typing.TypeVar("T")
+    # (make_dataclass: this module postpones its own annotations)
+    Box = dataclasses.make_dataclass("Box", [("item", T)], bases=(typing.Generic[T],))
+    with warnings.catch_warnings():
+        warnings.simplefilter("ignore")
+        clear_typelib_caches()
+        try:
+            r = typelib.unmarshal(Box[int], {"item": "x"})
+        except Exception:
+            return None
+    return None if not isinstance(r, Box) or isinstance(r.item, int) else f"unmarshal(Box[int], {{'item': 'x'}}) == {r!r} for @dataclass Box(Generic[T]) with item: T"
